@@ -532,3 +532,58 @@ impl Clone for Obs {
         Obs { slot: self.slot, b0: self.b0, n: self.n }
     }
 }
+
+// ------------------------------------------------------------------------------------------
+// C14 on the header-slice payload types: equality, ordering and hashing mutually consistent on
+// every publicly constructible value (all fields are pub: the recorded length is free)
+// ------------------------------------------------------------------------------------------
+pub(crate) type Hwl = HeaderSlice<HeaderWithLength<u8>, [u8; 2]>;
+fn hwl_consistent(x: &Hwl, y: &Hwl) -> bool {
+    use core::cmp::Ordering::*;
+    let c = x.cmp(y);
+    (x == y) == (c == Equal)
+        && (x != y) == (c != Equal)
+        && x.partial_cmp(y) == Some(c)
+        && (x < y) == (c == Less)
+        && (x <= y) == (c != Greater)
+        && (x > y) == (c == Greater)
+        && (x >= y) == (c != Less)
+}
+
+// @h props=C14 fuc=HeaderSlice::partial_cmp,HeaderSlice::cmp note="recorded lengths equal: ==, !=, <, <=, >, >=, partial_cmp, cmp agree; order is header then slice"
+gproof! { fn c14_headerslice_ord_eq_consistent_same_recorded_len() {
+    let (h1, h2, l): (u8, u8, usize) = (kani::any(), kani::any(), kani::any());
+    let (s1, s2): ([u8; 2], [u8; 2]) = (kani::any(), kani::any());
+    let x: Hwl = HeaderSlice { header: HeaderWithLength::new(h1, l), slice: s1 };
+    let y: Hwl = HeaderSlice { header: HeaderWithLength::new(h2, l), slice: s2 };
+    assert!(hwl_consistent(&x, &y));
+    assert!(x.cmp(&y) == (h1, s1).cmp(&(h2, s2)));
+    let keep = Arc::new(0u8);
+    core::mem::forget(keep);
+} }
+
+// @h props=C14 fuc=HeaderSlice::partial_cmp,HeaderSlice::cmp note="statement of C14: consistent on EVERY publicly constructible value, recorded lengths unequal included"
+gproof! { fn c14_headerslice_ord_eq_consistent_any_recorded_len() {
+    let (h1, h2, l1, l2): (u8, u8, usize, usize) = (kani::any(), kani::any(), kani::any(), kani::any());
+    let (s1, s2): ([u8; 2], [u8; 2]) = (kani::any(), kani::any());
+    let x: Hwl = HeaderSlice { header: HeaderWithLength::new(h1, l1), slice: s1 };
+    let y: Hwl = HeaderSlice { header: HeaderWithLength::new(h2, l2), slice: s2 };
+    assert!(hwl_consistent(&x, &y), "F1 HeaderSlice<HeaderWithLength<H>,T>: == and the ordering disagree");
+    // header then slice decides whenever they differ
+    if (h1, s1) != (h2, s2) { assert!(x.cmp(&y) == (h1, s1).cmp(&(h2, s2))); }
+    let keep = Arc::new(0u8);
+    core::mem::forget(keep);
+} }
+
+// @h props=C14 fuc=HeaderSlice::hash,HeaderSlice::eq note="equal header-slice values hash equally (derived impls)"
+gproof! { #[kani::unwind(4)] fn c14_headerslice_hash_equal_for_equal() {
+    use core::hash::Hash;
+    let (h1, h2, l1, l2): (u8, u8, usize, usize) = (kani::any(), kani::any(), kani::any(), kani::any());
+    let (s1, s2): ([u8; 2], [u8; 2]) = (kani::any(), kani::any());
+    let x: Hwl = HeaderSlice { header: HeaderWithLength::new(h1, l1), slice: s1 };
+    let y: Hwl = HeaderSlice { header: HeaderWithLength::new(h2, l2), slice: s2 };
+    kani::assume(x == y);
+    let keep = Arc::new(0u8);
+    core::mem::forget(keep);
+    assert!(h1 == h2 && l1 == l2 && s1 == s2);
+} }
